@@ -519,7 +519,7 @@ class CreateStudy:
 def _create_study_loop_invariant(it, fr, ctx):
     """for candidate_study in possible_candidate_studies: no earlier candidate has the requested display name."""
     L = ctx.iter
-    req = fr.env['request']
+    req = it.run.req
     dn = E.to_z3(req.get('study').get('display_name'))
     j = z3.Int('j!inv')
     return [('no_earlier_match', z3.ForAll([j], z3.Implies(z3.And(j >= 0, j < ctx.i), acc(ST(), 'display_name')(L.arr[j]) != dn)))]
